@@ -45,6 +45,7 @@ type GRPCServerMuxer struct {
 
 	acceptMutex    sync.Mutex
 	acceptChannels map[uint32]chan acceptResult
+	acceptDone     map[uint32]<-chan struct{}
 }
 
 func NewGRPCServerMuxer(logger hclog.Logger, ln net.Listener) *GRPCServerMuxer {
@@ -57,6 +58,7 @@ func NewGRPCServerMuxer(logger hclog.Logger, ln net.Listener) *GRPCServerMuxer {
 
 		knockCh:        make(chan uint32, 1),
 		acceptChannels: make(map[uint32]chan acceptResult),
+		acceptDone:     make(map[uint32]<-chan struct{}),
 	}
 
 	// Build the yamux configuration here rather than in the goroutine below:
@@ -127,6 +129,7 @@ func (m *GRPCServerMuxer) Accept() (net.Conn, error) {
 		case id := <-m.knockCh:
 			m.acceptMutex.Lock()
 			acceptCh, ok := m.acceptChannels[id]
+			doneCh := m.acceptDone[id]
 			m.acceptMutex.Unlock()
 
 			if !ok {
@@ -136,9 +139,19 @@ func (m *GRPCServerMuxer) Accept() (net.Conn, error) {
 				return nil, fmt.Errorf("received knock on ID %d that doesn't have a listener", id)
 			}
 			m.logger.Debug("sending conn to brokered listener", "id", id)
-			acceptCh <- acceptResult{
+			select {
+			case acceptCh <- acceptResult{
 				conn: conn,
 				err:  acceptErr,
+			}:
+			case <-doneCh:
+				// The listener was closed after its knock had been
+				// acknowledged: nobody will ever take this connection.
+				// Drop it instead of blocking here, which would stop every
+				// later connection, brokered or not, from being accepted.
+				if conn != nil {
+					_ = conn.Close()
+				}
 			}
 		default:
 			m.logger.Debug("sending conn to default listener")
@@ -181,6 +194,7 @@ func (m *GRPCServerMuxer) Listener(id uint32, doneCh <-chan struct{}) (net.Liste
 	ln := newBlockedServerListener(sess.Addr(), doneCh)
 	m.acceptMutex.Lock()
 	m.acceptChannels[id] = ln.acceptCh
+	m.acceptDone[id] = doneCh
 	m.acceptMutex.Unlock()
 
 	return ln, nil
